@@ -236,4 +236,23 @@ func C10_response_template() {
 		}
 	}
 	vAssert(br == nil, "resp.nothing_buffered_no_reader")
+	// whatever the server answered, the next request through the same Dialer is the configured
+	// one again: identical to the first but for the random key
+	srv2 := &vServer{resp: srv.resp}
+	d.Upgrade(srv2, u)
+	vAssert(vEqBytes(vBlankKey(srv.out), vBlankKey(srv2.out)), "resp.next_request_as_configured")
+}
+
+// vBlankKey returns a copy of a request with the 24 key characters replaced.
+func vBlankKey(req []byte) []byte {
+	out := append([]byte{}, req...)
+	for i := 0; i+19+24 <= len(out); i++ {
+		if string(out[i:i+19]) == "Sec-WebSocket-Key: " {
+			for j := 0; j < 24; j++ {
+				out[i+19+j] = 'K'
+			}
+			break
+		}
+	}
+	return out
 }
